@@ -35,12 +35,16 @@ def main():
     # demo with the change
     rc_changed, o1 = sh(["/venv/bin/python", "demo.py"], cwd=wt, env=env)
     ran.append(f"demo with change: exit {rc_changed}")
-    # demo on the original
-    sh(["git", "-C", wt, "stash", "-q"])
+    # demo on the original: an export of HEAD's scoda/ into a temporary directory (git stash is shared between worktrees
+    # and must not be used when several collections run in parallel)
+    import tempfile
+    tmp = tempfile.mkdtemp(prefix="seed_orig_", dir="/tmp")
     try:
-        rc_orig, o0 = sh(["/venv/bin/python", "demo.py"], cwd=wt, env=env)
+        sh(f"git -C {wt} archive HEAD scoda | tar -x -C {tmp}")
+        shutil.copy(os.path.join(wt, "demo.py"), os.path.join(tmp, "demo.py"))
+        rc_orig, o0 = sh(["/venv/bin/python", "demo.py"], cwd=tmp, env=dict(os.environ, PYTHONPATH=tmp, PYTHONDONTWRITEBYTECODE="1"))
     finally:
-        sh(["git", "-C", wt, "stash", "pop", "-q"])
+        shutil.rmtree(tmp, ignore_errors=True)
     ran.append(f"demo on original: exit {rc_orig}")
     # the unedited suite with the change (serially, from the worktree root)
     t0 = time.time()
